@@ -27,6 +27,11 @@ Definition rows (s : st) (l : nat) : list (nat * nat) := lwt (getl s l).
 Definition hasfr (s : st) (R : nat * list frame) (t : nat) (fr : frame) : Prop :=
   In fr (tframes s t) \/ (t = fst R /\ In fr (snd R)).
 Definition is_eager (k : tcont) : bool := match k with TEager _ _ _ => true | _ => false end.
+(* the condition of a frame suspended inside the `await fut` of wait() *)
+Definition cwait (fr : frame) : option nat :=
+  match fr with InCondWaitP c _ | InCondWaitI c _ => Some c | _ => None end.
+(* the lock of condition c exists *)
+Definition cok (s : st) (c : nat) : Prop := clock (getc s c) < length (locks s).
 (* the task recorded for waiter future f of lock l *)
 Definition rtask (s : st) (l f : nat) : nat := task_of_fut (getl s l) f.
 
@@ -62,7 +67,9 @@ Record WIx (ne : bool) (X : nat -> Prop) (R : nat * list frame) (s : st) : Prop 
                    Forall (fun e => (0 <= eobj e)%Z) (arr (cpq (getc s c)));
   w_cd : forall c, NoDup (cdq (getc s c));
   w_cf : forall c f, In f (pq_objs (cpq (getc s c))) \/ In f (cdq (getc s c)) ->
-         f < length (futs s) /\ fowner (getf s f) = None /\ clock (getc s c) < length (locks s)
+         f < length (futs s) /\ fowner (getf s f) = None /\ clock (getc s c) < length (locks s);
+  (* the condition of a task suspended in wait() has an existing lock *)
+  w_cw : forall t fr c, hasfr s R t fr -> cwait fr = Some c -> cok s c
 }.
 
 Arguments w_nodup {ne X R s} _.
@@ -79,6 +86,7 @@ Arguments w_key {ne X R s} _.
 Arguments w_cq {ne X R s} _.
 Arguments w_cd {ne X R s} _.
 Arguments w_cf {ne X R s} _.
+Arguments w_cw {ne X R s} _.
 
 (* [X]: tasks that are between `set_waiting_on` and the update of the lock's tables (only
    inside PriorityLock.acquire); empty otherwise *)
@@ -89,11 +97,13 @@ Definition WInv (ne : bool) (s : st) : Prop := WI ne (0, []) s.
 (* changing the record of pending frames *)
 Lemma WI_R ne X R R' s :
   (forall t l f had, hasfr s R' t (InAcquireP l f had) <-> hasfr s R t (InAcquireP l f had)) ->
+  (forall t fr c, cwait fr = Some c -> hasfr s R' t fr -> exists t', hasfr s R t' fr) ->
   (snd R' <> [] -> fst R' < length (tasks s)) -> WIx ne X R s -> WIx ne X R' s.
 Proof.
-  intros H Hrt W. destruct W. constructor; auto.
+  intros H Hc Hrt W. destruct W. constructor; auto.
   - intros t l f had Hh. apply H in Hh. eauto.
   - intros l f u Hin. destruct (w_row0 l f u Hin) as (t & had & Hh). exists t, had. now apply H.
+  - intros t fr c Hh Ec. destruct (Hc t fr c Ec Hh) as (t' & Hh'). eauto.
 Qed.
 
 Lemma hasfr_nil s t t0 fr : hasfr s (t0, []) t fr <-> In fr (tframes s t).
@@ -103,16 +113,19 @@ Lemma WI_runner ne X t t' s : WIx ne X (t, []) s -> WIx ne X (t', []) s.
 Proof.
   apply WI_R.
   - intros. rewrite !hasfr_nil. tauto.
+  - intros t0 fr c _ Hh. exists t0. apply hasfr_nil. now apply hasfr_nil in Hh.
   - simpl. congruence.
 Qed.
 
 (* frames that are not PriorityLock.acquire frames do not count *)
 Lemma WI_frames ne X t P P' s :
   (forall l f had, In (InAcquireP l f had) P' <-> In (InAcquireP l f had) P) ->
+  (forall fr c, cwait fr = Some c -> In fr P' -> In fr P) ->
   (P' <> [] -> t < length (tasks s)) -> WIx ne X (t, P) s -> WIx ne X (t, P') s.
 Proof.
-  intros H Hrt. apply WI_R; [|exact Hrt].
-  intros t0 l f had. unfold hasfr. simpl. rewrite H. tauto.
+  intros H Hc Hrt. apply WI_R; [| |exact Hrt].
+  - intros t0 l f had. unfold hasfr. simpl. rewrite H. tauto.
+  - intros t0 fr c Ec [Hh|[E Hh]]; exists t0; [now left|right]. simpl in *. split; auto. eapply Hc; eauto.
 Qed.
 
 Lemma WI_X ne X X' R s : (forall x, X x <-> X' x) -> WIx ne X R s -> WIx ne X' R s.
@@ -262,6 +275,8 @@ Proof.
   - intros c. destruct (k_cond K c) as (_ & -> & _). apply (w_cd W).
   - intros c f. destruct (k_cond K c) as (-> & -> & ->). intros H. destruct (w_cf W c f H) as (Hr & Ho & Hl).
     rewrite (k_nlocks K). pose proof (k_nfuts K). split; [lia|]. split; auto. rewrite (k_fowner K); auto.
+  - intros t fr c Hh Ec. apply Hfr in Hh. pose proof (w_cw W t fr c Hh Ec) as Hk. unfold cok in *.
+    destruct (k_cond K c) as (_ & _ & ->). now rewrite (k_nlocks K).
 Qed.
 
 (* ------------------------------------------------------------ building blocks *)
